@@ -15,8 +15,9 @@ Model/Manifest — executable model of the install / download / size manifest ta
 
 `HashMap<String, usize>` is an association list with replace-on-insert (`nmInsert`), `Vec::resize`
 is `resizeZ`, a Rust panic (index out of range) is the error `Err.panic`, never a default value.
-Names and paths are byte strings (Rust `String`s are valid UTF-8; the parser's UTF-8 check is not
-modelled, see the cfg assumptions).
+Names and paths are byte strings. The parsers here are the byte-level readers; the
+`String::from_utf8` checks the code makes inside the tag / entry readers, and the whole
+`SizeManifestBuilder`, are modelled on top of this file in Model/ManifestExt.lean.
 -/
 import Cascette.Base.Bytes
 namespace Cascette.Model.Manifest
